@@ -460,18 +460,27 @@ namespace ST
         char out_buffer[64];
         int format_size = snprintf(out_buffer, sizeof(out_buffer), format_buffer, value);
         ST_ASSERT(format_size > 0, "Your libc doesn't support reporting format size");
-        ST_ASSERT(static_cast<size_t>(format_size) < sizeof(out_buffer), "Format buffer too small");
+
+        // Renderings that don't fit the stack buffer ("{f}" of 1e100, large
+        // precisions) are produced again in a heap buffer of the reported size
+        const char *text = out_buffer;
+        ST::char_buffer heap_buffer;
+        if (static_cast<size_t>(format_size) >= sizeof(out_buffer)) {
+            heap_buffer.allocate(format_size);
+            format_size = snprintf(heap_buffer.data(), heap_buffer.size() + 1, format_buffer, value);
+            text = heap_buffer.data();
+        }
 
         if (format.minimum_length > format_size) {
             if (format.alignment == ST::align_left) {
-                output.append(out_buffer, format_size);
+                output.append(text, format_size);
                 output.append_char(pad, format.minimum_length - format_size);
             } else {
                 output.append_char(pad, format.minimum_length - format_size);
-                output.append(out_buffer, format_size);
+                output.append(text, format_size);
             }
         } else {
-            output.append(out_buffer, format_size);
+            output.append(text, format_size);
         }
     }
 
